@@ -14,22 +14,41 @@ pub open spec fn swap_settles(w: World, pair: Seq<char>, i0: AssetInfo, i1: Asse
     })
 }
 
+// C10 at the call site: the guard sees (offer, return, spread) of THIS swap with the decimals of (offer asset, ask asset) in that order
+pub open spec fn swap_guarded(w: World, pair: Seq<char>, i0: AssetInfo, i1: AssetInfo, dec: [u8; 2], rate: nat, offer: Asset, bp: Option<Decimal>, ms: Option<Decimal>) -> bool {
+    (offer.info.same(&i0) || offer.info.same(&i1)) && ({
+        let first = offer.info.same(&i0);
+        let oi = if first { i0 } else { i1 }; let ai = if first { i1 } else { i0 };
+        let od = if first { dec[0] } else { dec[1] }; let ad = if first { dec[1] } else { dec[0] };
+        let a = offer.amount.0 as nat; let bo = balance_of(w, oi, pair); let y = balance_of(w, ai, pair);
+        bo >= a && ({
+            let x = (bo - a) as nat;
+            !guard_rejects(bp, ms, norm_offer(od, ad, a), norm_ret(od, ad, sw_n(x, y, a, rate)), norm_ret(od, ad, (sw_ideal(x, y, a) - sw_gross(x, y, a)) as nat))
+        })
+    })
+}
+
 //%fn contracts/halo-pair/src/contract.rs | - | swap
 //%%rewrite #1 /to\.unwrap_or_else\(\|\| sender\.clone\(\)\)/ => vunwrap_or_else(to, || -> (x: Addr) ensures x == sender { sender.clone() }) ## R4: Option::unwrap_or_else -> verified helper; closure annotated with its own (verified) ensures
 //%%sig
     ensures
-        /*[C02,C01,C03,C12 swap.settles]*/ r is Ok ==> old(deps.storage).pair_info is Some && old(deps.storage).commission is Some && ({
+        /*[C02,C01,C03,C07,C12 swap.settles]*/ r is Ok ==> old(deps.storage).pair_info is Some && old(deps.storage).commission is Some && ({
             let pi = old(deps.storage).pair_info->Some_0;
             exists|i0: AssetInfo, i1: AssetInfo| #![trigger raw_of(i0, pi.asset_infos[0]), raw_of(i1, pi.asset_infos[1])] raw_of(i0, pi.asset_infos[0]) && raw_of(i1, pi.asset_infos[1])
                 && swap_settles(deps.querier.world(), env.contract.address.0@, i0, i1, old(deps.storage).commission->Some_0.0.v(), offer_asset,
                     (if to is Some { to->Some_0.0@ } else { sender.0@ }), r->Ok_0.msgs()) }),
+        /*[C10 swap.guard-applied]*/ r is Ok ==> old(deps.storage).pair_info is Some && old(deps.storage).commission is Some && ({
+            let pi = old(deps.storage).pair_info->Some_0;
+            exists|i0: AssetInfo, i1: AssetInfo| #![trigger raw_of(i0, pi.asset_infos[0]), raw_of(i1, pi.asset_infos[1])] raw_of(i0, pi.asset_infos[0]) && raw_of(i1, pi.asset_infos[1])
+                && swap_guarded(deps.querier.world(), env.contract.address.0@, i0, i1, pi.asset_decimals, old(deps.storage).commission->Some_0.0.v(), offer_asset, belief_price, max_spread) }),
         /*[C09,C02,C01,C03 swap.native-funds]*/ r is Ok ==> (offer_asset.info matches AssetInfo::NativeToken { denom } ==> offer_asset.amount.0 as nat == attached(info.funds@, denom@)),
         /*[C14,C07 swap.no-write]*/ *final(deps.storage) == *old(deps.storage),
 //%%insert before #1 /Ok\(Response::new\(\)\.add_messages\(messages\)/
     proof {
         // witnesses for the existential: the two pool descriptors returned by query_pools
         assert(raw_of(pools[0].info, pair_info.asset_infos[0]) && raw_of(pools[1].info, pair_info.asset_infos[1]));
-        /*[C02,C01,C12 swap.witness]*/ assert(swap_settles(deps.querier.world(), env.contract.address.0@, pools[0].info, pools[1].info, commission_rate.0.v(), offer_asset,
+        /*[C10 swap.guard-witness]*/ assert(swap_guarded(deps.querier.world(), env.contract.address.0@, pools[0].info, pools[1].info, pair_info.asset_decimals, commission_rate.0.v(), offer_asset, belief_price, max_spread));
+        /*[C02,C01,C07,C12 swap.witness]*/ assert(swap_settles(deps.querier.world(), env.contract.address.0@, pools[0].info, pools[1].info, commission_rate.0.v(), offer_asset,
             (if to is Some { to->Some_0.0@ } else { sender.0@ }), messages@));
     }
 //%end
@@ -115,12 +134,17 @@ pub open spec fn tok_is(i: AssetInfo, who: Seq<char>) -> bool { i matches AssetI
                 && (tok_is(i0, info.sender.0@) || tok_is(i1, info.sender.0@)),
         /*[C02,C01,C03 hook.swap.named-asset-is-sender]*/ decode::<Cw20HookMsg>(cw20_msg.msg) matches Ok(Cw20HookMsg::Swap { offer_asset, belief_price, max_spread, to }) ==> r is Ok ==>
             (offer_asset.info matches AssetInfo::Token { contract_addr } && contract_addr@ == info.sender.0@),
-        /*[C02,C01,C03,C12 hook.swap.settles]*/ decode::<Cw20HookMsg>(cw20_msg.msg) matches Ok(Cw20HookMsg::Swap { offer_asset, belief_price, max_spread, to }) ==> r is Ok ==>
+        /*[C02,C01,C03,C07,C12 hook.swap.settles]*/ decode::<Cw20HookMsg>(cw20_msg.msg) matches Ok(Cw20HookMsg::Swap { offer_asset, belief_price, max_spread, to }) ==> r is Ok ==>
             old(deps.storage).pair_info is Some && old(deps.storage).commission is Some && ({
                 let pi = old(deps.storage).pair_info->Some_0;
                 exists|i0: AssetInfo, i1: AssetInfo| #![trigger raw_of(i0, pi.asset_infos[0]), raw_of(i1, pi.asset_infos[1])] raw_of(i0, pi.asset_infos[0]) && raw_of(i1, pi.asset_infos[1])
                     && swap_settles(deps.querier.world(), env.contract.address.0@, i0, i1, old(deps.storage).commission->Some_0.0.v(), offer_asset,
                         (if to is Some { to->Some_0@ } else { cw20_msg.sender@ }), r->Ok_0.msgs()) }),
+        /*[C10 hook.swap.guard-applied]*/ decode::<Cw20HookMsg>(cw20_msg.msg) matches Ok(Cw20HookMsg::Swap { offer_asset, belief_price, max_spread, to }) ==> r is Ok ==>
+            old(deps.storage).pair_info is Some && old(deps.storage).commission is Some && ({
+                let pi = old(deps.storage).pair_info->Some_0;
+                exists|i0: AssetInfo, i1: AssetInfo| #![trigger raw_of(i0, pi.asset_infos[0]), raw_of(i1, pi.asset_infos[1])] raw_of(i0, pi.asset_infos[0]) && raw_of(i1, pi.asset_infos[1])
+                    && swap_guarded(deps.querier.world(), env.contract.address.0@, i0, i1, pi.asset_decimals, old(deps.storage).commission->Some_0.0.v(), offer_asset, belief_price, max_spread) }),
         /*[C04,C14 hook.withdraw.only-lp-token]*/ decode::<Cw20HookMsg>(cw20_msg.msg) matches Ok(Cw20HookMsg::WithdrawLiquidity {}) ==> r is Ok ==>
             old(deps.storage).pair_info is Some && canon_of(info.sender.0@) == old(deps.storage).pair_info->Some_0.liquidity_token.0@,
         /*[C04,C03,C07 hook.withdraw.pays]*/ decode::<Cw20HookMsg>(cw20_msg.msg) matches Ok(Cw20HookMsg::WithdrawLiquidity {}) ==> r is Ok ==>
@@ -142,12 +166,17 @@ pub open spec fn tok_is(i: AssetInfo, who: Seq<char>) -> bool { i matches AssetI
         /*[C02,C01,C03 exec.swap.native-only]*/ msg matches ExecuteMsg::Swap { offer_asset, belief_price, max_spread, to } ==> r is Ok ==> offer_asset.info is NativeToken,
         /*[C02,C09,C01,C03 exec.swap.native-funds]*/ msg matches ExecuteMsg::Swap { offer_asset, belief_price, max_spread, to } ==> r is Ok ==>
             (offer_asset.info matches AssetInfo::NativeToken { denom } ==> offer_asset.amount.0 as nat == attached(info.funds@, denom@)),
-        /*[C02,C01,C03,C12 exec.swap.settles]*/ msg matches ExecuteMsg::Swap { offer_asset, belief_price, max_spread, to } ==> r is Ok ==>
+        /*[C02,C01,C03,C07,C12 exec.swap.settles]*/ msg matches ExecuteMsg::Swap { offer_asset, belief_price, max_spread, to } ==> r is Ok ==>
             old(deps.storage).pair_info is Some && old(deps.storage).commission is Some && ({
                 let pi = old(deps.storage).pair_info->Some_0;
                 exists|i0: AssetInfo, i1: AssetInfo| #![trigger raw_of(i0, pi.asset_infos[0]), raw_of(i1, pi.asset_infos[1])] raw_of(i0, pi.asset_infos[0]) && raw_of(i1, pi.asset_infos[1])
                     && swap_settles(deps.querier.world(), env.contract.address.0@, i0, i1, old(deps.storage).commission->Some_0.0.v(), offer_asset,
                         (if to is Some { to->Some_0@ } else { info.sender.0@ }), r->Ok_0.msgs()) }),
+        /*[C10 exec.swap.guard-applied]*/ msg matches ExecuteMsg::Swap { offer_asset, belief_price, max_spread, to } ==> r is Ok ==>
+            old(deps.storage).pair_info is Some && old(deps.storage).commission is Some && ({
+                let pi = old(deps.storage).pair_info->Some_0;
+                exists|i0: AssetInfo, i1: AssetInfo| #![trigger raw_of(i0, pi.asset_infos[0]), raw_of(i1, pi.asset_infos[1])] raw_of(i0, pi.asset_infos[0]) && raw_of(i1, pi.asset_infos[1])
+                    && swap_guarded(deps.querier.world(), env.contract.address.0@, i0, i1, pi.asset_decimals, old(deps.storage).commission->Some_0.0.v(), offer_asset, belief_price, max_spread) }),
         /*[C14,C07 exec.swap.no-write]*/ msg is Swap ==> *final(deps.storage) == *old(deps.storage),
         /*[C14,C17 exec.update-decimals.only-factory]*/ msg is UpdateNativeTokenDecimals ==> r is Ok ==> old(deps.storage).config is Some && info.sender.0@ == old(deps.storage).config->Some_0.halo_factory.0@,
         /*[C14 exec.update-decimals.reject-no-write]*/ msg is UpdateNativeTokenDecimals ==> r is Err ==> *final(deps.storage) == *old(deps.storage),
